@@ -2,6 +2,7 @@
 // Every simple polygon (optionally with a hole) over the board x delta x join type x miter limit /
 // arc tolerance x ReverseSolution is offset by the real ClipperOffset; the result is compared at every
 // point of the plane outside the tolerance band with the signed-distance model (region engine).
+#include <functional>
 #include "clipper2/clipper.h"
 #include "sides/clip_api.hpp"
 #include "checks/offset_oracle.hpp"
@@ -131,6 +132,74 @@ int main(int argc, char** argv) {
     }
     rep.sample("P=" + pstr(jobs[0].first));
     if (done) rep.bounds_completed.push_back("sampled curves: " + std::to_string(shapes.size()) + " shapes, solid and as a hole, offsets 0.3/0.9/1.1/1.5 x radius x " + std::to_string(pl.size()) + " parameter sets");
+    rep.write();
+    return 0;
+  }
+  if (a.opt("family", "board") == "ortho") {
+    // rectilinear simple polygons (L, U, T, Z, staircase and comb shapes) of 4..nmax vertices over a 4x4 lattice with unequal spacing, both
+    // orientations: slots of width 7, 9, 13 close and bars of those widths vanish at the chosen deltas, so the result of one path splits into
+    // several polygons / merges across its own notch (the clean-up union inside ClipperOffset decides the outcome)
+    int nmax = (int)a.opti("nmax", 6);
+    std::vector<i64> xs = {0, 9, 16, 40}, ys = {0, 7, 20, 44};
+    if (a.opti("lat", 0) == 1) { xs = {0, 24, 31, 44}; ys = {0, 13, 37, 46}; }
+    std::vector<P> board; for (i64 y : ys) for (i64 x : xs) board.push_back(P{x + 100, y + 100});
+    std::vector<Path> polys;
+    for (int n = 4; n <= nmax; n += 2) for (int type = 0; type < 2; ++type) {
+      std::vector<int> cur; std::vector<char> used(board.size(), 0);
+      std::function<void()> rec = [&]() {
+        int i = (int)cur.size();
+        if (i == n) {
+          bool horiz = ((n - 1 + type) & 1) == 0; const P& u = board[cur.back()]; const P& v = board[cur[0]];
+          if (horiz ? u.y != v.y : u.x != v.x) return;
+          Path p; for (int j : cur) p.push_back(board[j]);
+          if (is_simple_closed(p)) polys.push_back(p);
+          return;
+        }
+        if (i == 0) { for (int j = 0; j < (int)board.size(); ++j) { used[j] = 1; cur.push_back(j); rec(); cur.pop_back(); used[j] = 0; } return; }
+        bool horiz = ((i - 1 + type) & 1) == 0; const P& u = board[cur.back()];
+        for (int j = cur[0] + 1; j < (int)board.size(); ++j) {     // rotation-normalised: the walk starts at its smallest board index
+          if (used[j]) continue;
+          if (horiz ? board[j].y != u.y : board[j].x != u.x) continue;
+          used[j] = 1; cur.push_back(j); rec(); cur.pop_back(); used[j] = 0;
+        }
+      };
+      rec();
+    }
+    std::vector<Params> plist;
+    for (double d : {2.5, -2.5, 6.0, -6.0, 10.0, -10.0, 14.0, -14.0}) {
+      plist.push_back({d, 2, 2.0, 0.25, false}); plist.push_back({d, 3, 2.0, 0.0, false}); plist.push_back({d, 0, 2.0, 0.0, false}); plist.push_back({d, 1, 2.0, 0.0, false});
+      if (a.thorough()) { plist.push_back({d, 2, 2.0, 0.0, true}); plist.push_back({d, 3, 1.0, 0.0, true}); plist.push_back({d, 3, 4.0, 0.0, false}); }
+    }
+    u64 idx = 0; bool done = true;
+    for (auto& p : polys) {
+      if (!rep.mine(idx++)) continue;
+      if (rep.out_of_time()) { done = false; break; }
+      rep.add("inputs"); if (p.size() > 4) rep.add("inputs_non_convex");
+      for (auto& q : plist) check_case(rep, Paths{p}, q, S);
+      rep.sample("P=" + pstr(Paths{p}));
+    }
+    // two (or three) strictly disjoint rectangles of one orientation in one call: their inflations merge across gaps of 7, 9, 13 units (one polygon
+    // region made of several simple polygons; the signed distance is the distance to the nearest of them)
+    size_t npairs = 0;
+    if (a.opti("pairs", 1)) {
+      std::vector<i64> px = xs, py = ys; px.push_back(xs.back() + 9); py.push_back(ys.back() + 13);
+      struct Rc { i64 l, t, r, b; }; std::vector<Rc> rcs;
+      for (size_t i = 0; i < px.size(); ++i) for (size_t j = i + 1; j < px.size(); ++j) for (size_t k = 0; k < py.size(); ++k) for (size_t l = k + 1; l < py.size(); ++l) rcs.push_back({px[i] + 100, py[k] + 100, px[j] + 100, py[l] + 100});
+      auto apart = [](const Rc& u, const Rc& v) { return u.r < v.l || v.r < u.l || u.b < v.t || v.b < u.t; };
+      auto mk = [](const Rc& u, bool rev) { Path p = {{u.l, u.t}, {u.r, u.t}, {u.r, u.b}, {u.l, u.b}}; return rev ? reversed(p) : p; };
+      for (size_t i = 0; i < rcs.size() && done; ++i) for (size_t j = i + 1; j < rcs.size() && done; ++j) {
+        if (!apart(rcs[i], rcs[j])) continue;
+        ++npairs;
+        if (!rep.mine(idx++)) continue;
+        if (rep.out_of_time()) { done = false; break; }
+        for (int rev = 0; rev < 2; ++rev) {
+          Paths in = {mk(rcs[i], rev), mk(rcs[j], rev)};
+          rep.add("inputs"); rep.add("inputs_two_polygons");
+          for (auto& q : plist) check_case(rep, in, q, S);
+        }
+      }
+    }
+    if (done) rep.bounds_completed.push_back("rectilinear simple polygons n<=" + std::to_string(nmax) + " over the 4x4 lattice lat=" + std::to_string(a.opti("lat", 0)) + ": " + std::to_string(polys.size()) + " shapes and " + std::to_string(npairs) + " pairs of disjoint rectangles (both orientations) x " + std::to_string(plist.size()) + " parameter sets");
     rep.write();
     return 0;
   }
